@@ -311,6 +311,11 @@ func Tree(t *rapid.T, o Opts) *ref.Node {
 	if wideK > 0 && rootDeg > 2 && rapid.IntRange(0, 3).Draw(t, "wideroot") == 0 {
 		rootDeg, wideK = wideK, 0
 	}
+	// one unrooted case in thirty is a star: every tip hangs on the root, there is no inner branch
+	// (for the checks that allow multifurcations and large trees, like the wide class)
+	if o.BigTips >= 24 && maxDeg > 2 && rootDeg > 2 && wideK == 0 && rapid.IntRange(0, 29).Draw(t, "star") == 11 {
+		rootDeg = n
+	}
 	if rootDeg > n {
 		rootDeg = n
 	}
